@@ -104,6 +104,9 @@ class Run:
         self.violations.extend(pres["violations"])
         self.undecided.extend(pres["undecided"])
         self.errors.extend(pres["errors"])
+        if pres.get("covered_by_bounded"):
+            self.extra.setdefault("obligations_unattached_decided_by_bounded_companion", []).extend(
+                pres["covered_by_bounded"])
 
     # -- verdict -----------------------------------------------------------------------------
     def finish(self):
@@ -120,6 +123,7 @@ class Run:
                 matched.append((v, known_ids[i]))
             else:
                 new.append(v)
+        new.sort(key=lambda v: 0 if v.kind == "proof" else 1)
         lines = []
         dump = os.environ.get("VERIF_DUMP_ALL")
         if dump:
@@ -210,7 +214,7 @@ def _wrap(args):
         return ("err", traceback.format_exc()[-3000:])
 
 
-def pmap(func, items, chunksize=None, nproc=None):
+def pmap(func, items, chunksize=None, nproc=None, fresh_process_per_item=False):
     items = list(items)
     nproc = nproc or NPROC
     if not items:
@@ -220,6 +224,9 @@ def pmap(func, items, chunksize=None, nproc=None):
     if chunksize is None:
         chunksize = max(1, min(64, len(items) // (nproc * 8) or 1))
     ctx = mp.get_context("fork")
+    if fresh_process_per_item:
+        with ctx.Pool(nproc, maxtasksperchild=1) as pool:
+            return pool.map(_wrap, [(func, a) for a in items], chunksize=1)
     with ctx.Pool(nproc) as pool:
         return pool.map(_wrap, [(func, a) for a in items], chunksize=chunksize)
 
